@@ -2623,6 +2623,11 @@ func (d *decoderCborBytes) swallow() {
 	d.d.nextValueBytes()
 }
 
+func (d *decoderCborBytes) readArrayStart() int {
+	halt.onerror(d.err)
+	return d.d.ReadArrayStart()
+}
+
 func (d *decoderCborBytes) nextValueBytes() []byte {
 	return d.d.nextValueBytes()
 }
@@ -6621,6 +6626,11 @@ func (d *decoderCborIO) Release() {}
 
 func (d *decoderCborIO) swallow() {
 	d.d.nextValueBytes()
+}
+
+func (d *decoderCborIO) readArrayStart() int {
+	halt.onerror(d.err)
+	return d.d.ReadArrayStart()
 }
 
 func (d *decoderCborIO) nextValueBytes() []byte {
